@@ -6,7 +6,12 @@ pub fn run(args: &[String]) -> String {
     let pid = args.first().map(|s| s.as_str()).unwrap_or("");
     let seed: u64 = args.get(3).and_then(|s| s.parse().ok()).unwrap_or(0);
     match pid {
-        "C12" | "C13" | "C14" | "C04" | "C03" => alloc_model::search(seed, 4000),
+        "C04" => {
+            let r = crate::prog_find::search(pid);
+            if r.contains("\"found\":true") { r } else { alloc_model::search(seed, 4000) }
+        }
+        "C02" | "C07" | "C31" | "C08" => crate::prog_find::search(pid),
+        "C12" | "C13" | "C14" | "C03" => alloc_model::search(seed, 4000),
         "C29" => serde_find::limit_search(seed),
         "C15" => serde_find::roundtrip_search(seed),
         "C16" | "C22" => {
@@ -22,7 +27,13 @@ pub fn run(args: &[String]) -> String {
         "C09" => crate::unknown_find::search(seed),
         "C10" | "C11" | "C05" => {
             let r = crate::opcost_find::search(seed);
-            if r.contains("\"found\":true") { r } else { crate::treehash_find::search(seed) }
+            if r.contains("\"found\":true") {
+                r
+            } else if pid == "C11" {
+                crate::prog_find::search(pid)
+            } else {
+                crate::treehash_find::search(seed)
+            }
         }
         "C23" => crate::treehash_find::search(seed),
         "C21" => crate::varint_find::search(seed),
